@@ -157,3 +157,10 @@ Theorem C03_code_write_memory_echo_64_64 : forall cfg a s data d r p, no_server_
   fn_write_memory_interpret_64_64 a s data d = wmba_interpret cfg a s (Some 64) (Some 64) r.
 Proof. exact tie_write_memory_interpret_64_64. Qed.
 Print Assumptions C03_code_write_memory_echo_64_64.
+
+(* ---- the code is the model: clear_dynamically_defined_did echo checks (Gen/Fn_More.v) ---- *)
+From UDS Require Import Gen.Fn_More Proofs.Tie_more.
+Theorem C03_code_clear_did_interpret : forall did d r p, fn_clear_did_request did = inr p -> d <> [] -> p_data r = d ->
+  fn_clear_did_interpret did d = dddi_interpret 3 (Some did) true r.
+Proof. exact tie_clear_did_interpret. Qed.
+Print Assumptions C03_code_clear_did_interpret.
